@@ -8,6 +8,7 @@ import (
 	"encoding/base64"
 	"encoding/json"
 	"fmt"
+	"github.com/gagliardetto/solana-go"
 	"os"
 	"path/filepath"
 	"runtime"
@@ -484,11 +485,43 @@ func TestVerif_C02(t *testing.T) {
 	vkRequestWatchdog = 120 * time.Second // a request that never returns is a finding, not a worker timeout
 	base := vkBase("c02")
 	defer os.RemoveAll(base)
-	R.Rule = "configuration = non-empty subset of 3 generated epochs (0 with genesis, 1, 2; skipped slots, multi-entry blocks, linked-frame metadata and rewards, vote/failed/no-metadata transactions, parents in the previous epoch) x epoch-search concurrency x request order (ascending on a cold cache, descending on the warm one, descending on a cold cache of a freshly loaded world, and the transaction requests alone in ascending and in descending order on cold caches), plus epoch 0 with slot 1 skipped (a block whose parent is slot 0), plus configurations that serve all epochs or only the middle one through the deprecated index formats (size-less cid-to-offset index, deprecated sig-exists index); under each configuration EVERY archived slot and signature is requested through JSON-RPC getBlock/getTransaction/getBlockTime in each encoding and gRPC GetBlock/GetTransaction/GetBlockTime (direct and through the Get stream) and compared with generator-side ground truth; non-trivial = request whose answer contains transaction payloads"
+	R.Rule = "configuration = non-empty subset of 3 generated epochs (0 with genesis, 1, 2; skipped slots, multi-entry blocks, linked-frame metadata and rewards, vote/failed/no-metadata transactions, parents in the previous epoch, one signature of epoch 1 constructed to collide with a stored signature in epoch 2's sig-to-cid index) x epoch-search concurrency x request order (ascending on a cold cache, descending on the warm one, descending on a cold cache of a freshly loaded world, and the transaction requests alone in ascending and in descending order on cold caches), plus epoch 0 with slot 1 skipped (a block whose parent is slot 0), plus configurations that serve all epochs or only the middle one through the deprecated index formats (size-less cid-to-offset index, deprecated sig-exists index); under each configuration EVERY archived slot and signature is requested through JSON-RPC getBlock/getTransaction/getBlockTime in each encoding and gRPC GetBlock/GetTransaction/GetBlockTime (direct and through the Get stream) and compared with generator-side ground truth; non-trivial = request whose answer contains transaction payloads"
 	R.Assume("generator constraints so that the oracle asks only what the statement fixes: every block has at least one entry, a non-zero block time, a position index on every transaction, and its parent is the previous archived block; slot 0's block time/height/parent are not compared (the server substitutes genesis values)")
 	shapes := c02Shapes()
 	altShape := shapes[3]
 	shapes = shapes[:3]
+	// One transaction of epoch 1 gets a signature that is constructed to collide (bucket and 24-bit hash, found with
+	// the index's own hash functions) with a stored signature in the sig-to-cid index of epoch 2, the NEWEST epoch:
+	// a signature search that trusted a hit in another epoch's sig-to-cid index would send the request there.
+	// Epoch 2 does not depend on it, so it is built first (a probe copy) and searched.
+	{
+		probe, err := vkBuildEpoch(filepath.Join(base, "probe2"), shapes[2], false)
+		if err != nil {
+			R.Internal("cannot build epoch 2 (probe): %v", err)
+			return
+		}
+		var keys [][]byte
+		for _, tx := range probe.Truth.Txs {
+			keys = append(keys, append([]byte{}, tx.Sig[:]...))
+		}
+		_, db, f, err := c03OpenBucketDomain(probe.Paths.SignatureToCid, keys[0])
+		if err != nil {
+			R.Internal("cannot open the sig-to-cid index of epoch 2: %v", err)
+			return
+		}
+		cand, _, tries := c03FindCollider(db, keys, c03GenSig, 0, 200_000_000)
+		f.Close()
+		os.RemoveAll(probe.Dir)
+		if cand == nil {
+			R.Note("no colliding signature found in %d candidates: epoch 1 keeps its generated signatures", tries)
+		} else {
+			var sg solana.Signature
+			copy(sg[:], cand)
+			raw := [64]byte(sg)
+			shapes[1].Blocks[1].Entries[2][1].Sig = &raw
+			R.Bounds["colliding_signature_in_epoch_1"] = sg.String()
+		}
+	}
 	var eps []*vEpoch
 	for i, sh := range shapes {
 		e, err := vkBuildEpoch(filepath.Join(base, fmt.Sprintf("e%d", i)), sh, false)
